@@ -9,7 +9,7 @@ def run(tier, replay=None):
     st = run_pipe(res, tier, 'C07', configs, schedules)
     res.rule = ('same controlled sessions as C06; read sessions: delivered objects == the file\'s objects (unique ids, content) in file '
                 'order, each once, null and eof only after the last; write sessions: file bytes identical to the uncontrolled reference '
-                'run of the same configuration, accepted by the independent container parser, payload == concatenated encodings; '
+                'run of the same configuration, accepted by the independent container parser, payload == concatenated encodings; plus a systematic leg: small sessions (1-2 objects, tiny buffers, read/early-close/write) with EVERY schedule of at most 1 (quick) / 2 (thorough) preemptions explored depth-first; '
                 'distinct = distinct schedule signatures')
     res.assumptions = ['input files for read sessions are assembled by the independent writer (twin.h), not by the library']
     if not st.get('read_sessions') or not st.get('write_sessions'):
